@@ -350,6 +350,9 @@ func (c *Client) httpPoll(ctx context.Context, url string) {
 // rather than using the cached value,
 // bypassing the caching mechanism.
 func (c *Client) Latest(ctx context.Context, url string, n uint64) (uint64, []byte, error) {
+	// get replaces once under the lock after an error: consult it under
+	// the same lock. The function only starts a goroutine.
+	c.lcache.Lock()
 	c.lcache.once.Do(func() {
 		switch {
 		case len(c.wsurl) > 0:
@@ -360,6 +363,7 @@ func (c *Client) Latest(ctx context.Context, url string, n uint64) (uint64, []by
 			go c.httpPoll(context.Background(), url)
 		}
 	})
+	c.lcache.Unlock()
 	if n, h, ok := c.lcache.get(ctx, n); ok {
 		return n, h, nil
 	}
